@@ -2,6 +2,11 @@
 
 package dtlcp
 
+import (
+	"net"
+	"time"
+)
+
 //verif:assume E1 (dtlcp): the packet transport under a Conn is a stub: incoming datagrams have case-split lengths and symbolic contents; WriteTo appends to a ghost log
 
 type verifAddr struct{}
@@ -27,4 +32,49 @@ func sameBytes(id string, a, b []byte) {
 	for i := 0; i < len(a) && i < len(b); i++ {
 		verifAssert(id+".byte", a[i] == b[i])
 	}
+}
+
+type verifRandSrc struct{}
+
+func (verifRandSrc) Read(p []byte) (int, error) {
+	copy(p, verifNondetBytes("rand", len(p)))
+	return len(p), nil
+}
+
+// verifPConn: packet transport stub. Incoming datagrams are queued by the harness; every WriteTo is logged.
+type verifPConn struct {
+	in     [][]byte
+	pos    int
+	sent   [][]byte
+	closed bool
+}
+
+func (p *verifPConn) ReadFrom(b []byte) (int, net.Addr, error) {
+	if p.pos >= len(p.in) {
+		return 0, verifAddr{}, verifTimeout{}
+	}
+	d := p.in[p.pos]
+	p.pos++
+	n := copy(b, d)
+	return n, verifAddr{}, nil
+}
+func (p *verifPConn) WriteTo(b []byte, a net.Addr) (int, error) {
+	p.sent = append(p.sent, append([]byte(nil), b...))
+	return len(b), nil
+}
+func (p *verifPConn) Close() error                       { p.closed = true; return nil }
+func (p *verifPConn) LocalAddr() net.Addr                { return verifAddr{} }
+func (p *verifPConn) SetDeadline(t time.Time) error      { return nil }
+func (p *verifPConn) SetReadDeadline(t time.Time) error  { return nil }
+func (p *verifPConn) SetWriteDeadline(t time.Time) error { return nil }
+
+// verifTimeout: what a drained transport returns (a net.Error that is a timeout)
+type verifTimeout struct{}
+
+func (verifTimeout) Error() string   { return "verif: i/o timeout" }
+func (verifTimeout) Timeout() bool   { return true }
+func (verifTimeout) Temporary() bool { return true }
+
+func verifBareConn(cfg *Config, isClient bool) *Conn {
+	return &Conn{pconn: &verifPConn{}, remoteAddr: verifAddr{}, config: cfg, isClient: isClient}
 }
